@@ -2,6 +2,7 @@
 package c18
 
 import (
+	"unicode/utf16"
 	"bytes"
 	"encoding/binary"
 	"fmt"
@@ -84,6 +85,15 @@ func genNode(t *rapid.T) NodeCase {
 		n.Path = "\\" + strings.Join(rapid.SliceOfN(rapid.StringMatching(`[A-Za-z0-9_\-\.%$ ]{1,12}`), 1, 4).Draw(t, "path"), "\\")
 		if rapid.IntRange(0, 5).Draw(t, "unicodepath") == 0 {
 			n.Path += "\\" + strings.ReplaceAll(gen.UnicodeString(12).Draw(t, "upath"), "\x00", "")
+		}
+		if gen.Chance(t, "longpath", 1, 4) {
+			// a node whose 16-bit Length needs its second byte (256 and more): names of 125 characters and beyond
+			want := rapid.SampledFrom([]int{122, 123, 124, 125, 126, 127, 128, 129, 200, 253, 254, 255, 256, 257, 381, 382, 383, 384, 510, 638, 700, 1021, 1022, 1023}).Draw(t, "pathlen")
+			rs := []rune(n.Path + "\\")
+			for len(rs) < want {
+				rs = append(rs, rs...)
+			}
+			n.Path = string(rs[:want])
 		}
 	case "fwfile":
 		n.FileName = rapid.SliceOfN(rapid.Byte(), 16, 16).Draw(t, "fwname")
@@ -421,6 +431,22 @@ func checkCase(c Case) error {
 	}
 	if err := checkOption(reused, want); err != nil {
 		return fmt.Errorf("EFILoadOption.Unmarshal into a value that held another option: %v", err)
+	}
+	// results of earlier decodes belong to the caller: the later decodes (of this and, last, of another option) left them alone
+	if err := (&device.EFILoadOption{}).Unmarshal(bytes.NewBuffer(other.Encode())); err != nil {
+		return fmt.Errorf("EFILoadOption.Unmarshal rejects a fixed load option: %v", err)
+	}
+	if err := checkOption(opt, want); err != nil {
+		return fmt.Errorf("EFILoadOption.Unmarshal: the decoded option changed while other options were decoded: %v", err)
+	}
+	if err := checkOption(o2, want); err != nil {
+		return fmt.Errorf("ParseEFILoadOption + ParseDevicePath: the decoded option changed while other options were decoded: %v", err)
+	}
+	for _, nc := range c.Nodes {
+		if nc.Kind == "file" && 4+2*(len(utf16.Encode([]rune(nc.Path)))+1) >= 256 {
+			hx.Class("node/file_length_256_or_more")
+			break
+		}
 	}
 	return checkOrder(c.Order, c.Existing, enc, &want, c.Legacy)
 }
